@@ -50,7 +50,7 @@ let norm s = String.lowercase_ascii (String.concat "" (String.split_on_char '_' 
 let by_rust : (string, opcode) Hashtbl.t = Hashtbl.create 97
 let () = List.iter (fun o -> Hashtbl.replace by_rust (norm (cp_name o)) o) all_opcodes
 let op_of_rust (s : string) : opcode =
-  try Hashtbl.find by_rust (String.lowercase_ascii s) with Not_found -> failwith ("unknown opcode name " ^ s)
+  try Hashtbl.find by_rust (norm s) with Not_found -> failwith ("unknown opcode name " ^ s)
 
 let kind_of_char = function
   | 'I' -> KInt | 'F' -> KFloat | 'B' -> KBool | 'N' -> KNone | 'Y' -> KBytes | 'S' -> KString
@@ -130,6 +130,21 @@ let read_cases (path : string) : case list =
    with End_of_file -> close_in ic);
   List.rev !cases
 
+(* the property statements that speak about one output alone (extracted oracles), on an implementation output *)
+let output_props (id : string) (cfg : config) (safe : bool) (out : n list) (tag : string) : unit =
+  let v = cfg.c_version in
+  let prop p detail = Printf.printf "PROP %s %s fail %s%s\n" id p detail tag in
+  if not (oracle_C04 out) then prop "C04" "output does not lex";
+  if not (oracle_C06 v out) then prop "C06" "frame";
+  if not (oracle_C10 cfg out) then prop "C10" "opt-in opcode present";
+  if not (oracle_C11 cfg out) then prop "C11" "opcode count outside the bounds";
+  if safe then begin
+    if not (oracle_C01 out) then prop "C01" "rejected by ref machine (whole output)";
+    if not (oracle_C02 out) then prop "C02" "memo discipline (whole output)";
+    if not (oracle_C03 out) then prop "C03" "kind requirement (whole output)";
+    if not (oracle_C05 v out) then prop "C05" "protocol/header/7-bit"
+  end
+
 (* ---------- S1: step-wise membership in the envelope + oracles on the output ---------- *)
 let words l = List.filter (fun s -> s <> "") (String.split_on_char ' ' l)
 
@@ -158,7 +173,11 @@ let s1_case (c : case) : unit =
           if not (req_ok r0 t) then prop "C03" (Printf.sprintf "step=%d %s operand kinds" !step (tok_to_string t));
           if not (memo_ok r0 t) then prop "C02" (Printf.sprintf "step=%d %s memo discipline" !step (tok_to_string t));
           (match ref_step r0 t with
-           | None -> prop "C01" (Printf.sprintf "step=%d %s rejected by the reference machine" !step (tok_to_string t)); r := None
+           | None ->
+               prop "C01" (Printf.sprintf "step=%d %s rejected by the reference machine" !step (tok_to_string t));
+               prop "C17" (Printf.sprintf "step=%d the reference machine cannot execute the emitted %s: the simulated state %s mirrors no reference state"
+                             !step (tok_to_string t) (string_of_stack impl_stk));
+               r := None
            | Some r1 ->
                r := Some r1;
                let sorted_rm = List.sort (fun (a, _) (b, _) -> compare (int_of_n a) (int_of_n b)) r1.rmemo in
@@ -188,6 +207,7 @@ let s1_case (c : case) : unit =
         let res =
           if ph = "B" then begin
             incr nbody;
+            if fin = "-" then prop "C11" (Printf.sprintf "body step %d (chosen %s) contributed no opcode to the output" !nbody chosen);
             let valid_ops = if valid = "-" then [] else List.map op_of_rust (String.split_on_char ',' valid) in
             s1_step cfg !s valid_ops (op_of_rust chosen) (bytes_of_hex orig) (bytes_of_hex fin) post_stk post_memo
           end else begin
@@ -241,19 +261,12 @@ let s1_case (c : case) : unit =
        let all = hdr_toks @ List.rev !out_toks in
        if !diffs = 0 && serialize all <> out then diff 0 "serialize" "header+tokens do not give the output bytes";
        if !target >= 0 && !nbody <> !target then diff 0 "T" (Printf.sprintf "T=%d body steps=%d" !target !nbody);
-       if not (oracle_C04 out) then prop "C04" "output does not lex";
-       if not (oracle_C06 v out) then prop "C06" "frame";
-       if not (oracle_C10 cfg out) then prop "C10" "opt-in opcode present";
-       if not (oracle_C11 cfg out) then prop "C11" "opcode count outside the bounds";
+       output_props c.id cfg safe out "";
        if !ntail > 2 * !nbody + 1 then prop "C11" (Printf.sprintf "tail %d > 2*%d+1" !ntail !nbody);
        (let mn = int_of_n cfg.c_min and mx = int_of_n cfg.c_max in
         let okT = if mn < mx then mn <= !nbody && !nbody < mx else !nbody = mn in
         if not okT then prop "C11" (Printf.sprintf "T=%d outside [%d,%d)" !nbody mn mx));
        if safe then begin
-         if not (oracle_C01 out) then prop "C01" "rejected by ref machine (whole output)";
-         if not (oracle_C02 out) then prop "C02" "memo discipline (whole output)";
-         if not (oracle_C03 out) then prop "C03" "kind requirement (whole output)";
-         if not (oracle_C05 v out) then prop "C05" "protocol/header/7-bit";
          (match !r with
           | Some r1 -> if r1.rstk <> [] then prop "C01" "reference stack not empty after STOP"
           | None -> ())
@@ -602,9 +615,58 @@ let s5_case (c : case) : unit =
            c.id (List.length impl - 1) (List.nth calls (List.length calls - 1)) (List.length impl - 1)
            (String.sub last 0 (min 80 (String.length last))) (String.sub f 0 (min 80 (String.length f)))
    | _ -> ());
+  List.iteri (fun i a ->
+    match words a with
+    | ["RESULT"; "ok"; hx] -> output_props c.id cfg (is_safe cfg) (bytes_of_hex hx) (Printf.sprintf " (call %d of the history)" i)
+    | _ -> ()) impl;
   List.iter (fun a -> if String.length a > 12 && String.sub a 0 12 = "RESULT panic" || (String.length a > 10 && String.sub a 0 10 = "RESULT err") then
                 Printf.printf "PROP %s C09 fail %s\n" c.id a) impl;
   if !ok then Printf.printf "OK5 %s calls=%d\n" c.id (List.length calls)
+
+
+(* ---------- path compiler: fuzzer bytes that steer the generator along a given opcode path ----------
+   line:  <config fields> frame=<0|1> path=OP[:drawbytes][*count];...   ->  a case line with src=bytes:...
+   In fuzzer mode a choice among n <= 256 candidates consumes one byte b and selects b mod n (nothing when
+   n = 1); the emitter's own draws are taken from `drawbytes` (zero padded). *)
+let compile_path (idx : int) (line : string) : string =
+  let h = kv line in
+  let g k d = try Hashtbl.find h k with Not_found -> d in
+  let items = List.concat_map (fun it ->
+      let (it, count) = match String.index_opt it '*' with
+        | Some i -> (String.sub it 0 i, int_of_string (String.sub it (i + 1) (String.length it - i - 1)))
+        | None -> (it, 1) in
+      let (name, draws) = match String.index_opt it ':' with
+        | Some i -> (String.sub it 0 i, String.sub it (i + 1) (String.length it - i - 1))
+        | None -> (it, "-") in
+      List.init count (fun _ -> (name, draws))) (String.split_on_char ';' (Hashtbl.find h "path")) in
+  let n = List.length items in
+  Hashtbl.replace h "min" (string_of_int n); Hashtbl.replace h "max" (string_of_int n);
+  List.iter (fun (k, d) -> if not (Hashtbl.mem h k) then Hashtbl.replace h k d)
+    [("rate", "3fb999999999999a"); ("unsafe", "0"); ("ext", "0"); ("buf", "0"); ("muts", "-")];
+  let cfg = config_of h in
+  let v = cfg.c_version in
+  let buf = Buffer.create 64 in
+  (match v with V4 | V5 -> Buffer.add_string buf (if g "frame" "0" = "1" then "01" else "00") | _ -> ());
+  let s = ref { sim_init with proto_emitted = (match v with V0 | V1 -> false | _ -> true) } in
+  List.iter (fun (name, draws) ->
+    let o = op_of_rust name in
+    let valid = get_valid_opcodes cfg !s in
+    let rec index i = function [] -> failwith (Printf.sprintf "path %d: %s is not a candidate in state %s" idx name (string_of_stack !s.stk))
+                             | x :: r -> if x = o then i else index (i + 1) r in
+    let i = index 0 valid in
+    if List.length valid > 1 then Buffer.add_string buf (Printf.sprintf "%02x" i);
+    let given = bytes_of_hex draws in
+    let padded = given @ List.init 96 (fun _ -> N0) in
+    (match emit_and_process (the_env ()) (fun l -> l) cfg !s o (SrcBytes padded) with
+     | Ok ((_, s'), SrcBytes rest) ->
+         let consumed = List.length padded - List.length rest in
+         Buffer.add_string buf (let hx = hex_of_bytes (List.filteri (fun j _ -> j < consumed) padded) in if hx = "-" then "" else hx);
+         s := s'
+     | _ -> failwith (Printf.sprintf "path %d: the model cannot emit %s" idx name))) items;
+  let src = Buffer.contents buf in
+  Printf.sprintf "id=p%d v=%d min=%d max=%d rate=%s unsafe=%s ext=%s buf=%s muts=%s src=bytes:%s"
+    idx (int_of_n (vnum v)) n n (Hashtbl.find h "rate") (Hashtbl.find h "unsafe") (Hashtbl.find h "ext") (Hashtbl.find h "buf")
+    (Hashtbl.find h "muts") (if src = "" then "-" else src)
 
 let () =
   match Array.to_list Sys.argv with
@@ -616,6 +678,26 @@ let () =
       List.iter (fun c ->
         (try s2_case c
          with e -> Printf.printf "DIFF %s step=0 s2-driver-exception %s\n" c.id (Printexc.to_string e))) (read_cases path)
+  | [_; "oracles"; path] ->
+      List.iter (fun c ->
+        (try
+           let h = kv c.spec in
+           let cfg = config_of h in
+           List.iter (fun l -> match words l with
+             | ["RESULT"; "ok"; hx] -> output_props c.id cfg (is_safe cfg) (bytes_of_hex hx) ""
+             | "RESULT" :: ("panic" | "err") :: rest -> Printf.printf "PROP %s C09 fail %s\n" c.id (String.concat " " rest)
+             | _ -> ()) c.lines
+         with e -> Printf.printf "DIFF %s step=0 driver-exception %s\n" c.id (Printexc.to_string e))) (read_cases path)
+  | [_; "paths"; path] ->
+      let ic = open_in path in
+      let i = ref 0 in
+      (try while true do
+           let l = input_line ic in
+           if String.length l > 0 && l.[0] <> '#' then begin
+             incr i;
+             (try print_endline (compile_path !i l) with Failure m -> prerr_endline ("PATH-ERROR " ^ m))
+           end
+         done with End_of_file -> close_in ic)
   | [_; "s3"; path] ->
       List.iter (fun c ->
         (try s3_case c
